@@ -542,15 +542,20 @@ class Terms(object):
 
     def _inlinable(self, callee):
         """Small, loop-free, non-generator, effect-light functions (their return value as a term is meaningful)."""
-        if callee.is_generator or callee.is_async and False:
+        if callee.is_generator:
             return False
-        n = 0
+        from .roles import reaches_io
+        if callee in reaches_io(self.ctx) or self.ctx.modsets.get(callee):
+            return False      # functions with I/O or side effects stay opaque calls
+        n = nret = 0
         for x in walk_own(callee.node):
             if isinstance(x, (ast.For, ast.While, ast.AsyncFor, ast.Try, ast.With, ast.AsyncWith, ast.Yield, ast.YieldFrom)):
                 return False
             if isinstance(x, ast.stmt):
                 n += 1
-        return n <= 25
+            if isinstance(x, ast.Return):
+                nret += 1
+        return n <= 12 and nret <= 2
 
 
 def show(t, depth=0):
